@@ -33,7 +33,7 @@ type ecCase struct {
 	Extra  int      `json:"extra,omitempty"` // further blobs written by the same Add call
 }
 
-var damageKinds = []string{"missing", "trunc0", "trunc1", "trunc16", "trunc17", "trunc18", "half", "flip-payload", "flip-meta"}
+var damageKinds = []string{"missing", "trunc0", "trunc1", "trunc16", "trunc17", "trunc18", "half", "flip-payload", "flip-meta", "flip-both", "garbage-head"}
 
 // failingFileIO fails writes below given drive folders.
 type failingFileIO struct {
@@ -212,6 +212,27 @@ func runECCase(c *ecCase) (vs []Violation) {
 		case "flip-meta":
 			nb := append([]byte{}, b...)
 			nb[3] ^= 0x01
+			os.WriteFile(f, nb, 0o644)
+		case "flip-both":
+			// checksum bytes and payload of the same shard file
+			if len(b) <= 17 {
+				damaged--
+				continue
+			}
+			nb := append([]byte{}, b...)
+			nb[5] ^= 0x40
+			nb[17+(len(b)-17)/2] ^= 0x10
+			os.WriteFile(f, nb, 0o644)
+		case "garbage-head":
+			// the first bytes of the file overwritten (checksum and the start of the payload)
+			if len(b) <= 17 {
+				damaged--
+				continue
+			}
+			nb := append([]byte{}, b...)
+			for i := 1; i < len(nb) && i < 40; i++ {
+				nb[i] = byte(0xA5 ^ i)
+			}
 			os.WriteFile(f, nb, 0o644)
 		}
 	}
@@ -464,7 +485,7 @@ func init() {
 		return len(ecConfigs) * 9
 	}
 	Register(&CheckDef{ID: "C25", Level: "fault_enumeration",
-		Rule:    "each unit = one (d,p) in {(1,1),(2,1),(2,2),(3,2),(4,2)} x one blob size in {0,1,d-1,d,d+1,1023,1024,1025,65539}; ALL subsets of the d+p shard files x damage kind (missing, truncated to 0/1/16/17/18 bytes/half, payload bit flip, metadata bit flip; each kind uniformly plus 3 PRNG-mixed assignments per subset) on fs.NewBlobStoreWithEC over real files; plus ALL subsets of failing shard writes on an Add call carrying 1-3 blobs. Oracle: <= p damaged => exact bytes; > p => error or exact bytes, never different bytes; any panic is a violation; Add fails iff more than p shard writes fail. distinct_nontrivial = distinct (d,p,size,damage/write pattern)",
+		Rule:    "each unit = one (d,p) in {(1,1),(2,1),(2,2),(3,2),(4,2)} x one blob size in {0,1,d-1,d,d+1,1023,1024,1025,65539}; ALL subsets of the d+p shard files x damage kind (missing, truncated to 0/1/16/17/18 bytes/half, payload bit flip, metadata bit flip, both in one shard, first 40 bytes overwritten; each kind uniformly plus 3 PRNG-mixed assignments per subset) on fs.NewBlobStoreWithEC over real files; plus ALL subsets of failing shard writes on an Add call carrying 1-3 blobs. Oracle: <= p damaged => exact bytes; > p => error or exact bytes, never different bytes; any panic is a violation; Add fails iff more than p shard writes fail. distinct_nontrivial = distinct (d,p,size,damage/write pattern)",
 		Exhaust: "all shard subsets x uniform damage kinds for the listed (d,p) and sizes (mixed kinds are sampled)",
 		Units:   units, Run: runECUnit(false), Replay: replayEC,
 		Real:   []string{"fs.BlobStoreWithEC (Add, GetOne incl. shard metadata handling), fs/erasure (encode, decode, reconstruct), klauspost/reedsolomon"},
